@@ -523,7 +523,14 @@ def replay_scenario(payload):
         diffs = [f"operation {i} {a[0]}: impl {a[1:]} vs reference {b[1:]}" for i, (a, b) in enumerate(zip(ires, rres)) if str(a) != str(b)][:3]
         return {"confirmed": bool(diffs), "differences": diffs, "operations": ops, "impl_results": [str(x) for x in ires], "ref_results": [str(x) for x in rres],
                 "impl_log": [list(map(str, e)) for e in ri.log][:60], "ref_log": [list(map(str, e)) for e in rr.log][:60]}
-    io = asyncio.run(drive_impl(ri, impl, ia, ik, kind, max_steps))
+    async def impl_main():
+        out = await drive_impl(ri, impl, ia, ik, kind, max_steps)
+        # look at the sources NOW: when the event loop shuts down it finalises abandoned async generators, which
+        # would close leaked sources behind our back
+        ri.open_now = [name for name, (st, has_aclose) in ri.sources.items()
+                       if has_aclose and st["pulled"] and not (st["closed"] or st.get("exhausted"))]
+        return out
+    io = asyncio.run(impl_main())
     ro = drive_ref(rr, ref, ra, rk, kind, max_steps)
     ilog = [e for e in ri.log if e[0] not in ("aclose",)]
     rlog = list(rr.log)
@@ -545,11 +552,7 @@ def replay_scenario(payload):
         diffs.append(f"closing the iterator raised {io[1]!r}")
     elif (io[0] in ("return", "raise")) != (ro[0] in ("return", "raise")) and "cut" not in (io[0], ro[0]):
         diffs.append(f"outcome: impl {io[0]} vs reference {ro[0]}")
-    leaks = []
-    if io[0] != "cut":
-        for name, (st, has_aclose) in ri.sources.items():
-            if has_aclose and st["pulled"] and not (st["closed"] or st.get("exhausted")):
-                leaks.append(name)
+    leaks = list(getattr(ri, "open_now", [])) if io[0] != "cut" else []
     if leaks:
         diffs.append(f"sources left open by the impl: {leaks}")
     return {"confirmed": bool(diffs), "differences": diffs, "impl_log": [list(map(str, e)) for e in ri.log][:60],
